@@ -103,8 +103,13 @@ Definition wc_script (fixed : bool) (w : wreq) : script :=
       SBranch CWcFormats
         (SBranch CWriting (reply_and_end RErr)
            (SBranch CWcOffNeedsProj (reply_and_end RErr)
-              (SBranch CPathOk (SWork (WkWriting true) (SWork WkNone (reply_and_end ROk)))
-                               (reply_and_end RErr))))
+              (SBranch CPathOk
+                 (* the run directory exists, the channels have their writers; WritingState.Start marks writing active
+                    and then creates the experiment-state file: if that fails (io) the error is the reply, and the
+                    writing state stays as Start left it *)
+                 (SWork (WkWriting true)
+                    (SBranch CIoFails (reply_and_end RErr) (SWork WkNone (reply_and_end ROk))))
+                 (reply_and_end RErr))))
         (reply_and_end RErr)
   | WStop => SWork (WkWriting false) (SWork WkNone (reply_and_end ROk))
   | WPause => SWork WkNone (reply_and_end ROk)
